@@ -1027,6 +1027,21 @@ class LinearSolver(Solver):
     def _set_matvec_scope(self, scope_out=_UNDEFINED, scope_in=_UNDEFINED):
         pass
 
+    def use_relevance(self):
+        """
+        Return True if relevance should be active.
+
+        An assembled jacobian holds the sub-jacobians of every subsystem, and a subsystem that
+        relevance leaves out of the linearization (an implicit component in particular) would
+        leave a zero row in it, so relevance is not used together with an assembled jacobian.
+
+        Returns
+        -------
+        bool
+            True if relevance should be active.
+        """
+        return not self.options['assemble_jac']
+
     def _assembled_jac_solver_iter(self):
         """
         Return a generator of linear solvers using assembled jacs.
